@@ -273,7 +273,7 @@ def program_set(tier: str) -> List[Tuple[str, ...]]:
         progs = gen.programs(gen.ALL, [1, 2, 3]) + gen.programs(gen.PRIME[:12], [4])
         for sp in gen.SPINES:
             progs += gen.edits(sp, gen.PRIME, 2)
-    return sorted(set(progs) | set(gen.MENU_PROGS))
+    return sorted(set(progs) | set(gen.MENU_PROGS) | set(gen.LONG_PROGS))
 
 
 def check(tier: str, seed: int) -> Result:
